@@ -605,6 +605,10 @@ fn reassociate_applications<'a>(acc: Option<Term<'a>>, term: &Term<'a>) -> Term<
                 "ParseError".code_str(),
             )
         }
+        // A parenthesized application is an opaque operand of the enclosing chain.
+        Variant::Application(_, _) if acc.is_some() && term.group => {
+            reassociate_applications(None, term)
+        }
         Variant::Type
         | Variant::Variable(_)
         | Variant::Integer
@@ -830,6 +834,10 @@ fn reassociate_products_and_quotients<'a>(
                 "reassociate_products_and_quotients".code_str(),
                 "ParseError".code_str(),
             )
+        }
+        // A parenthesized product or quotient is an opaque operand of the enclosing chain.
+        Variant::Product(_, _) | Variant::Quotient(_, _) if acc.is_some() && term.group => {
+            reassociate_products_and_quotients(None, term)
         }
         Variant::Type
         | Variant::Variable(_)
@@ -1110,6 +1118,10 @@ fn reassociate_sums_and_differences<'a>(
                 "reassociate_sums_and_differences".code_str(),
                 "ParseError".code_str(),
             )
+        }
+        // A parenthesized sum or difference is an opaque operand of the enclosing chain.
+        Variant::Sum(_, _) | Variant::Difference(_, _) if acc.is_some() && term.group => {
+            reassociate_sums_and_differences(None, term)
         }
         Variant::Type
         | Variant::Variable(_)
